@@ -73,6 +73,22 @@ impl<'de> Deserializer<'de> {
     }
 }
 
+/// Integers beyond 32 bits come back from the wire as big integers: their value, if it fits 64 bits
+/// either way.
+fn bigint_value(big: &erltf::BigInt) -> Option<i128> {
+    let mut magnitude: u128 = 0;
+    for (i, digit) in big.digits.iter().enumerate() {
+        if *digit != 0 {
+            if i >= 8 {
+                return None;
+            }
+            magnitude |= (*digit as u128) << (8 * i);
+        }
+    }
+    let value = magnitude as i128;
+    Some(if big.sign.is_negative() { -value } else { value })
+}
+
 impl<'de> SerdeDeserializer<'de> for &mut Deserializer<'de> {
     type Error = Error;
 
@@ -86,6 +102,14 @@ impl<'de> SerdeDeserializer<'de> for &mut Deserializer<'de> {
                 _ => visitor.visit_str(atom.as_str()),
             },
             OwnedTerm::Integer(i) => visitor.visit_i64(*i),
+            OwnedTerm::BigInt(big) if bigint_value(big).is_some() => {
+                let i = bigint_value(big).unwrap_or_default();
+                match (i64::try_from(i), u64::try_from(i)) {
+                    (Ok(v), _) => visitor.visit_i64(v),
+                    (_, Ok(v)) => visitor.visit_u64(v),
+                    _ => Err(Error::InvalidValue(format!("integer {} out of range", i))),
+                }
+            }
             OwnedTerm::Float(f) => visitor.visit_f64(*f),
             OwnedTerm::Binary(b) => {
                 if let Ok(s) = str::from_utf8(b) {
@@ -125,6 +149,12 @@ impl<'de> SerdeDeserializer<'de> for &mut Deserializer<'de> {
             OwnedTerm::Integer(i) => i8::try_from(*i)
                 .map_err(|_| Error::InvalidValue(format!("integer {} out of range for i8", i)))
                 .and_then(|v| visitor.visit_i8(v)),
+            OwnedTerm::BigInt(big) if bigint_value(big).is_some() => {
+                let i = bigint_value(big).unwrap_or_default();
+                i8::try_from(i)
+                    .map_err(|_| Error::InvalidValue(format!("integer {} out of range for i8", i)))
+                    .and_then(|v| visitor.visit_i8(v))
+            }
             _ => Err(Error::TypeMismatch {
                 expected: "integer".into(),
                 found: format!("{:?}", self.term),
@@ -137,6 +167,12 @@ impl<'de> SerdeDeserializer<'de> for &mut Deserializer<'de> {
             OwnedTerm::Integer(i) => i16::try_from(*i)
                 .map_err(|_| Error::InvalidValue(format!("integer {} out of range for i16", i)))
                 .and_then(|v| visitor.visit_i16(v)),
+            OwnedTerm::BigInt(big) if bigint_value(big).is_some() => {
+                let i = bigint_value(big).unwrap_or_default();
+                i16::try_from(i)
+                    .map_err(|_| Error::InvalidValue(format!("integer {} out of range for i16", i)))
+                    .and_then(|v| visitor.visit_i16(v))
+            }
             _ => Err(Error::TypeMismatch {
                 expected: "integer".into(),
                 found: format!("{:?}", self.term),
@@ -149,6 +185,12 @@ impl<'de> SerdeDeserializer<'de> for &mut Deserializer<'de> {
             OwnedTerm::Integer(i) => i32::try_from(*i)
                 .map_err(|_| Error::InvalidValue(format!("integer {} out of range for i32", i)))
                 .and_then(|v| visitor.visit_i32(v)),
+            OwnedTerm::BigInt(big) if bigint_value(big).is_some() => {
+                let i = bigint_value(big).unwrap_or_default();
+                i32::try_from(i)
+                    .map_err(|_| Error::InvalidValue(format!("integer {} out of range for i32", i)))
+                    .and_then(|v| visitor.visit_i32(v))
+            }
             _ => Err(Error::TypeMismatch {
                 expected: "integer".into(),
                 found: format!("{:?}", self.term),
@@ -159,6 +201,12 @@ impl<'de> SerdeDeserializer<'de> for &mut Deserializer<'de> {
     fn deserialize_i64<V: Visitor<'de>>(self, visitor: V) -> Result<V::Value> {
         match self.term {
             OwnedTerm::Integer(i) => visitor.visit_i64(*i),
+            OwnedTerm::BigInt(big) if bigint_value(big).is_some() => {
+                let i = bigint_value(big).unwrap_or_default();
+                i64::try_from(i)
+                    .map_err(|_| Error::InvalidValue(format!("integer {} out of range for i64", i)))
+                    .and_then(|v| visitor.visit_i64(v))
+            }
             _ => Err(Error::TypeMismatch {
                 expected: "integer".into(),
                 found: format!("{:?}", self.term),
@@ -171,6 +219,12 @@ impl<'de> SerdeDeserializer<'de> for &mut Deserializer<'de> {
             OwnedTerm::Integer(i) => u8::try_from(*i)
                 .map_err(|_| Error::InvalidValue(format!("integer {} out of range for u8", i)))
                 .and_then(|v| visitor.visit_u8(v)),
+            OwnedTerm::BigInt(big) if bigint_value(big).is_some() => {
+                let i = bigint_value(big).unwrap_or_default();
+                u8::try_from(i)
+                    .map_err(|_| Error::InvalidValue(format!("integer {} out of range for u8", i)))
+                    .and_then(|v| visitor.visit_u8(v))
+            }
             _ => Err(Error::TypeMismatch {
                 expected: "integer".into(),
                 found: format!("{:?}", self.term),
@@ -183,6 +237,12 @@ impl<'de> SerdeDeserializer<'de> for &mut Deserializer<'de> {
             OwnedTerm::Integer(i) => u16::try_from(*i)
                 .map_err(|_| Error::InvalidValue(format!("integer {} out of range for u16", i)))
                 .and_then(|v| visitor.visit_u16(v)),
+            OwnedTerm::BigInt(big) if bigint_value(big).is_some() => {
+                let i = bigint_value(big).unwrap_or_default();
+                u16::try_from(i)
+                    .map_err(|_| Error::InvalidValue(format!("integer {} out of range for u16", i)))
+                    .and_then(|v| visitor.visit_u16(v))
+            }
             _ => Err(Error::TypeMismatch {
                 expected: "integer".into(),
                 found: format!("{:?}", self.term),
@@ -195,6 +255,12 @@ impl<'de> SerdeDeserializer<'de> for &mut Deserializer<'de> {
             OwnedTerm::Integer(i) => u32::try_from(*i)
                 .map_err(|_| Error::InvalidValue(format!("integer {} out of range for u32", i)))
                 .and_then(|v| visitor.visit_u32(v)),
+            OwnedTerm::BigInt(big) if bigint_value(big).is_some() => {
+                let i = bigint_value(big).unwrap_or_default();
+                u32::try_from(i)
+                    .map_err(|_| Error::InvalidValue(format!("integer {} out of range for u32", i)))
+                    .and_then(|v| visitor.visit_u32(v))
+            }
             _ => Err(Error::TypeMismatch {
                 expected: "integer".into(),
                 found: format!("{:?}", self.term),
@@ -243,6 +309,17 @@ impl<'de> SerdeDeserializer<'de> for &mut Deserializer<'de> {
     fn deserialize_char<V: Visitor<'de>>(self, visitor: V) -> Result<V::Value> {
         match self.term {
             OwnedTerm::String(s) => {
+                let mut chars = s.chars();
+                if let Some(c) = chars.next()
+                    && chars.next().is_none()
+                {
+                    return visitor.visit_char(c);
+                }
+                Err(Error::InvalidValue("expected single char".into()))
+            }
+            // a char travels as a binary: that is what it comes back as from the wire
+            OwnedTerm::Binary(b) => {
+                let s = str::from_utf8(b).map_err(|e| Error::InvalidValue(e.to_string()))?;
                 let mut chars = s.chars();
                 if let Some(c) = chars.next()
                     && chars.next().is_none()
